@@ -1,5 +1,5 @@
 (* Entry points of the executable model used by the correspondence check (extracted). *)
-From RP Require Import Base Stream Target Socks Http Frames Frag MiluSyntax MiluParser MiluDoc MiluEval Dispatch MiluSound MiluWf Reload Lb Callbacks RtLeaf MiluRoundtrip Idle Config.
+From RP Require Import Base Stream Target Socks Http Frames Frag MiluSyntax MiluParser MiluDoc MiluEval Dispatch MiluSound MiluWf Reload Lb Callbacks RtLeaf MiluRoundtrip Idle Config Registry.
 From RP.Gen Require Gen_ladder.
 
 Definition HFUEL : nat := 4000.   (* header lines per HTTP head in generated cases are far fewer *)
@@ -45,7 +45,7 @@ Definition x_dispatch regex cidr := dispatch x_milu_parse regex cidr 4000.
 
 Definition x_wf_lfb := wf_lfb.
 
-Definition x_rrun regex cidr rq0 conns := rrun x_milu_parse regex cidr 4000 rq0 conns (mk_rstate [] []).
+Definition x_rrun regex cidr rq0 conns := Reload.rrun x_milu_parse regex cidr 4000 rq0 conns (mk_rstate [] []).
 Definition x_member_at := @member_at bytes.
 
 Definition x_client_bytes (p : N) (tgt : target) (msg : bytes) (k : N) : bytes :=
@@ -68,3 +68,7 @@ Definition x_udp_period := udp_period.
 (* connector tables (C18) *)
 Definition x_table_ok := table_ok.
 Definition x_resolve (t : ctable) (n : N) (choices : list nat) := resolve (S (List.length t)) t n choices.
+
+(* connection accounting (C16) *)
+Definition x_state_log := state_log.
+Definition x_lifecycle_ok := lifecycle_ok.
